@@ -18,19 +18,21 @@ theorem readEAux_sel (ts : List PS.STok) : ∀ (cur : List PS.STok) (rest : List
     simp only [List.map_cons, List.cons_append, readEAux]
     rw [ih]; simp
 
-theorem printTop_ne_nil (t : PS.Top) : PS.printTop t ≠ [] := by
+theorem printTop_ne_nil (t : PS.Top) : PS.printTop true t ≠ [] := by
   cases t with
-  | plain s => obtain ⟨n, r, e⟩ := PS.printSel_head s; simp [PS.printTop, e]
+  | plain s =>
+    have := PS.printSel_starts true s
+    intro e; simp only [PS.printTop] at e; rw [e] at this; simp [PS.startsSel] at this
   | star s => simp [PS.printTop]
   | lenBar s => simp [PS.printTop]
   | lenStar s => simp [PS.printTop]
 
 theorem flushE_printTop (t : PS.Top) (h : PS.wfTop t = true) :
-    flushE (PS.printTop t) = some [.sel (PS.normTop t)] := by
+    flushE (PS.printTop true t) = some [.sel (PS.normTop t)] := by
   have hne := printTop_ne_nil t
   simp [flushE, hne, PS.readTop_printTop t h]
 
-theorem readE_printE : ∀ e : Expr, wfE e = true → readE (printE e) = some (normE e)
+theorem readE_printE : ∀ e : Expr, wfE e = true → readE (printE true e) = some (normE e)
   | [], _ => by simp [readE, printE, readEAux, flushE, normE]
   | .code c :: r, h => by
     have ih := readE_printE r (by simpa [wfE] using h)
@@ -39,7 +41,7 @@ theorem readE_printE : ∀ e : Expr, wfE e = true → readE (printE e) = some (n
   | [.sel t], h => by
     have ht : PS.wfTop t = true := by simpa [wfE] using h
     simp only [readE, printE, List.append_nil]
-    have := readEAux_sel (PS.printTop t) [] []
+    have := readEAux_sel (PS.printTop true t) [] []
     simp only [List.append_nil, List.nil_append] at this
     rw [this]
     simp [readEAux, flushE_printTop t ht, normE]
@@ -53,7 +55,7 @@ theorem readE_printE : ∀ e : Expr, wfE e = true → readE (printE e) = some (n
     simp only [printE] at ih
     simp only [readEAux, flushE_printTop t h.1]
     simp only [readEAux, flushE, List.isEmpty_nil, if_true] at ih
-    cases hr : readEAux [] (printE r) with
+    cases hr : readEAux [] (printE true r) with
     | none => rw [hr] at ih; simp at ih
     | some b =>
       rw [hr] at ih
@@ -62,15 +64,15 @@ theorem readE_printE : ∀ e : Expr, wfE e = true → readE (printE e) = some (n
       simp [normE, hb]
   | .sel _ :: .sel _ :: _, h => by simp [wfE] at h
 
-theorem printE_normE : ∀ e : Expr, printE (normE e) = printE e
+theorem printE_normE : ∀ e : Expr, printE true (normE e) = printE true e
   | [] => rfl
   | .code c :: r => by simp [normE, printE, printE_normE r]
   | .sel t :: r => by
-    have ht : PS.printTop (PS.normTop t) = PS.printTop t := by
+    have ht : PS.printTop true (PS.normTop t) = PS.printTop true t := by
       cases t <;> simp [PS.normTop, PS.printTop, PS.printSel_normSel]
     simp [normE, printE, printE_normE r, ht]
 
-theorem readB_printB (b : Bound) (h : wfB b = true) : readB (printB b) = some (normB b) := by
+theorem readB_printB (b : Bound) (h : wfB b = true) : readB (printB true b) = some (normB b) := by
   cases b with
   | num n => rfl
   | expr e => simp [printB, readB, readE_printE e (by simpa [wfB] using h), normB]
@@ -90,11 +92,11 @@ theorem cbMax_normCB (b : CB) : cbMax (normCB b) = cbMax b := by
     | none => cases lo <;> rfl
     | some h => cases h <;> cases lo <;> rfl
 
-theorem printCB_normCB (b : CB) : printCB (normCB b) = printCB b := by
+theorem printCB_normCB (b : CB) : printCB true (normCB b) = printCB true b := by
   cases b with
   | single e => simp [normCB, printCB, printE_normE]
   | range lo hi =>
-    have hb : ∀ x : Bound, printB (normB x) = printB x := by
+    have hb : ∀ x : Bound, printB true (normB x) = printB true x := by
       intro x; cases x <;> simp [normB, printB, printE_normE]
     cases hi with
     | none => simp [normCB, printCB, hb]
@@ -102,7 +104,7 @@ theorem printCB_normCB (b : CB) : printCB (normCB b) = printCB b := by
 
 /-- the brace group of a computed repetition, read back -/
 theorem mkRep_repC (cap : Nat) (b : CB) (x : ENode) (h : wfCB cap b = true) :
-    mkRep cap (.repC (printCB b)) x = some (.crep "" x (normCB b)) := by
+    mkRep cap (.repC (printCB true b)) x = some (.crep "" x (normCB b)) := by
   simp only [wfCB, Bool.and_eq_true] at h
   obtain ⟨hb, hk⟩ := h
   cases b with
@@ -294,7 +296,7 @@ theorem run_print (c : PrintCfg) (hc : c.Sound) (cap : Nat) : ∀ n : ENode, wf 
     exact run_printCat c hc cap ns h.2 f st
   | .rep id k n mn mx, h, f, st => by
     have hc' := hc
-    obtain ⟨hA, hC, hR, hAl, hO, hS, hP, hQ⟩ := hc
+    obtain ⟨hA, hC, hR, hAl, hO, hS, hP, hQ, hB⟩ := hc
     simp only [wf, Bool.and_eq_true] at h
     obtain ⟨hw, hk⟩ := h
     have hsuf := mkRep_suffix c hO hS hP hQ cap k mn mx (norm n) hk
@@ -324,11 +326,11 @@ theorem run_print (c : PrintCfg) (hc : c.Sound) (cap : Nat) : ∀ n : ENode, wf 
     simp [Frame.push, Frame.add]
   | .crep id n b, h, f, st => by
     have hc' := hc
-    obtain ⟨hA, hC, hR, hAl, hO, hS, hP, hQ⟩ := hc
+    obtain ⟨hA, hC, hR, hAl, hO, hS, hP, hQ, hB⟩ := hc
     simp only [wf, Bool.and_eq_true] at h
     obtain ⟨hw, hk⟩ := h
     have hsuf := mkRep_repC cap b (norm n) hk
-    simp only [print, items, symOf]
+    simp only [print, items, symOf, hB]
     have hop : run cap (f, st) (if needsParen c n then .lp :: (print c n ++ [.rp]) else print c n)
         = some (f.push (norm n), st) := by
       by_cases hp : needsParen c n = true
@@ -542,7 +544,7 @@ theorem postfixOk_snoc : ∀ (a : List PTok) (p : Option PTok) (t s : PTok), pos
 theorem postfixOk_operand (c : PrintCfg) (hc : c.Sound) (n : ENode) (s : PTok)
     (ih : ∀ p, postfixOk p (print c n) = true) (p : Option PTok) :
     postfixOk p ((if needsParen c n then .lp :: (print c n ++ [.rp]) else print c n) ++ [s]) = true := by
-  obtain ⟨hA, hC, hR, hAl, hO, hS, hP, hQ⟩ := hc
+  obtain ⟨hA, hC, hR, hAl, hO, hS, hP, hQ, hB⟩ := hc
   by_cases hp : needsParen c n = true
   · simp only [hp, if_true]
     refine postfixOk_snoc _ p .rp _ ?_ (getLast?_paren _) rfl
@@ -654,63 +656,63 @@ theorem needsParen_norm (c : PrintCfg) : ∀ n : ENode, shaped n = true →
     simp only [norm]; rw [mkCat_two _ (by omega)]; rfl
 
 mutual
-theorem print_norm (c : PrintCfg) : ∀ n : ENode, shaped n = true → print c (norm n) = print c n
+theorem print_norm (c : PrintCfg) (hB : c.parenSelBase = true) : ∀ n : ENode, shaped n = true → print c (norm n) = print c n
   | .term (.lit _), _ => rfl
   | .term (.regex _), _ => rfl
   | .nt _ s r, _ => by cases s <;> simp [norm, print, printedRecipient]
   | .alt _ ns, h => by
     simp only [shaped, Bool.and_eq_true, decide_eq_true_eq] at h
     simp only [norm]; rw [mkAlt_two _ (by rw [normL_length]; exact h.1)]
-    simp only [print, printAlts_normL c ns h.2]
+    simp only [print, printAlts_normL c hB ns h.2]
   | .cat _ ns, h => by
     simp only [shaped, Bool.and_eq_true, decide_eq_true_eq] at h
     have := itemsL_length ns h.2
     simp only [norm]; rw [mkCat_two _ (by omega)]
-    simp only [print, printCat_itemsL c ns h.2]
+    simp only [print, printCat_itemsL c hB ns h.2]
   | .rep id k n mn mx, h => by
     simp only [shaped] at h
-    simp only [norm, print, needsParen_norm c n h, print_norm c n h]
+    simp only [norm, print, needsParen_norm c n h, print_norm c hB n h]
   | .crep id n b, h => by
     simp only [shaped] at h
-    simp only [norm, print, needsParen_norm c n h, print_norm c n h, printCB_normCB]
-theorem printCat_items (c : PrintCfg) : ∀ n : ENode, shaped n = true →
+    simp only [norm, print, needsParen_norm c n h, print_norm c hB n h, hB, printCB_normCB]
+theorem printCat_items (c : PrintCfg) (hB : c.parenSelBase = true) : ∀ n : ENode, shaped n = true →
     printCat c (items n) = print c n
   | .term (.lit _), _ => by simp [items, printCat, print]
   | .term (.regex _), _ => by simp [items, printCat, print]
   | .nt _ s r, _ => by cases s <;> simp [items, printCat, print, printedRecipient]
   | .alt id ns, h => by
-    have := print_norm c (.alt id ns) h
+    have := print_norm c hB (.alt id ns) h
     simp only [norm] at this
     simp only [items, printCat, List.append_nil, this]
   | .cat _ ns, h => by
     simp only [shaped, Bool.and_eq_true] at h
-    simp only [items, print, printCat_itemsL c ns h.2]
+    simp only [items, print, printCat_itemsL c hB ns h.2]
   | .rep id k n mn mx, h => by
-    have := print_norm c (.rep id k n mn mx) h
+    have := print_norm c hB (.rep id k n mn mx) h
     simp only [norm] at this
     simp only [items, printCat, List.append_nil, this]
   | .crep id n b, h => by
-    have := print_norm c (.crep id n b) h
+    have := print_norm c hB (.crep id n b) h
     simp only [norm] at this
     simp only [items, printCat, List.append_nil, this]
-theorem printCat_itemsL (c : PrintCfg) : ∀ ns : List ENode, shapedL ns = true →
+theorem printCat_itemsL (c : PrintCfg) (hB : c.parenSelBase = true) : ∀ ns : List ENode, shapedL ns = true →
     printCat c (itemsL ns) = printCat c ns
   | [], _ => rfl
   | n :: ns, h => by
     simp only [shapedL, Bool.and_eq_true] at h
-    simp only [itemsL, printCat_append, printCat, printCat_items c n h.1, printCat_itemsL c ns h.2]
-theorem printAlts_normL (c : PrintCfg) : ∀ ns : List ENode, shapedL ns = true →
+    simp only [itemsL, printCat_append, printCat, printCat_items c hB n h.1, printCat_itemsL c hB ns h.2]
+theorem printAlts_normL (c : PrintCfg) (hB : c.parenSelBase = true) : ∀ ns : List ENode, shapedL ns = true →
     printAlts c (normL ns) = printAlts c ns
   | [], _ => rfl
   | n :: ns, h => by
     simp only [shapedL, Bool.and_eq_true] at h
-    simp only [normL, printAlts, print_norm c n h.1, printAltsTail_normL c ns h.2]
-theorem printAltsTail_normL (c : PrintCfg) : ∀ ns : List ENode, shapedL ns = true →
+    simp only [normL, printAlts, print_norm c hB n h.1, printAltsTail_normL c hB ns h.2]
+theorem printAltsTail_normL (c : PrintCfg) (hB : c.parenSelBase = true) : ∀ ns : List ENode, shapedL ns = true →
     printAltsTail c (normL ns) = printAltsTail c ns
   | [], _ => rfl
   | n :: ns, h => by
     simp only [shapedL, Bool.and_eq_true] at h
-    simp only [normL, printAltsTail, print_norm c n h.1, printAltsTail_normL c ns h.2]
+    simp only [normL, printAltsTail, print_norm c hB n h.1, printAltsTail_normL c hB ns h.2]
 end
 
 /-! ### productions and grammars -/
@@ -718,11 +720,12 @@ end
 theorem readRule_printRule (c : PrintCfg) (hc : c.Sound) (cap : Nat) (r : Rule)
     (h : wfRule cap r = true) : readRule cap (printRule c r) = some (normRule r) := by
   obtain ⟨name, rhs, gen⟩ := r
+  have hB : c.parenSelBase = true := hc.2.2.2.2.2.2.2.2
   simp only [wfRule, Bool.and_eq_true] at h
   cases gen with
   | none => simp [readRule, printRule, read_print c hc cap rhs h.1, normRule]
   | some g =>
-    simp [readRule, printRule, read_print c hc cap rhs h.1, readE_printE g h.2, normRule]
+    simp [readRule, printRule, read_print c hc cap rhs h.1, hB, readE_printE g h.2, normRule]
 
 theorem setRule_fresh (r : Rule) : ∀ acc : List Rule, (∀ x ∈ acc, x.name ≠ r.name) →
     setRule r acc = acc ++ [r]
